@@ -44,7 +44,6 @@ class LogCapture(logging.Handler):
             self.tracebacks[f"{type(record.exc_info[1]).__name__}@{innermost_lib_frame(record.exc_info[1])}"] += 1
 
     def __enter__(self) -> "LogCapture":
-        logging.disable(logging.NOTSET)
         self._saved = []
         for name in ("ramses_tx", "ramses_rf"):
             lg = logging.getLogger(name)
@@ -59,7 +58,6 @@ class LogCapture(logging.Handler):
             lg.handlers = handlers
             lg.setLevel(level)
             lg.propagate = prop
-        logging.disable(logging.CRITICAL)
 
 
 class Reach:
